@@ -14,7 +14,6 @@
 """Symbolic list."""
 
 import dataclasses
-import math
 import numbers
 import typing
 from typing import Any, Callable, Dict, Iterable, Iterator, Optional, Tuple, Union
@@ -418,6 +417,17 @@ class List(list, base.Symbolic, pg_typing.CustomTyping):
       # Generates no update as old value is the same as the new value.
       if old_value is value:
         return None
+      if pg_typing.MISSING_VALUE == value:
+        # Deletion: leave a placeholder (removed by `_sync_children`), so the
+        # indices of the other updates in the same batch remain valid.
+        if pg_typing.MISSING_VALUE == old_value:
+          return None
+        list.__setitem__(self, index, pg_typing.MISSING_VALUE)
+        self._detach(old_value)
+        return base.FieldUpdate(
+            self.sym_path + index, self,
+            self._value_spec.element if self._value_spec else None,
+            old_value, pg_typing.MISSING_VALUE)
 
     new_value = self._formalized_value(index, value)
     if index < len(self):
@@ -491,20 +501,8 @@ class List(list, base.Symbolic, pg_typing.CustomTyping):
         item.sym_setpath(utils.KeyPath(idx, self.sym_path))
 
   def _parse_slice(self, index: slice) -> Tuple[int, int, int]:
-    start = index.start if index.start is not None else 0
-    start = max(-len(self), start)
-    start = min(len(self), start)
-    if start < 0:
-      start += len(self)
-
-    stop = index.stop if index.stop is not None else len(self)
-    stop = max(-len(self), stop)
-    stop = min(len(self), stop)
-    if stop < 0:
-      stop += len(self)
-
-    step = index.step if index.step is not None else 1
-    return start, stop, step
+    """Returns (start, stop, step) with the semantics of Python lists."""
+    return index.indices(len(self))
 
   def _init_kwargs(self) -> typing.Dict[str, Any]:
     kwargs = super()._init_kwargs()
@@ -554,30 +552,34 @@ class List(list, base.Symbolic, pg_typing.CustomTyping):
                               'Use \'rebind\' method instead.'))
     if isinstance(index, slice):
       start, stop, step = self._parse_slice(index)
-      replacements = [self._formalized_value(i, v) for i, v in enumerate(value)]
-      if step < 0:
-        replacements.reverse()
-        step = -step
-      slice_size = math.ceil((stop - start) * 1.0 / step)
+      replacements = list(value)
       if step == 1:
-        if slice_size < len(replacements):
-          for i in range(slice_size, len(replacements)):
-            replacements[i] = Insertion(replacements[i])
-        else:
-          replacements.extend(
-              [pg_typing.MISSING_VALUE
-               for _ in range(slice_size - len(replacements))])
-      elif slice_size != len(replacements):
-        raise ValueError(
-            f'attempt to assign sequence of size {len(replacements)} to '
-            f'extended slice of size {slice_size}')
+        # Replace the common part, then insert or delete the difference.
+        stop = max(start, stop)
+        common = min(stop - start, len(replacements))
+        targets = list(range(start, start + common))
+        replacements[common:] = [Insertion(r) for r in replacements[common:]]
+        targets.extend(range(start + common, start + len(replacements)))
+        replacements.extend(
+            [pg_typing.MISSING_VALUE] * (stop - start - common))
+        targets.extend(range(start + common, stop))
+      else:
+        targets = list(range(start, stop, step))
+        if len(targets) != len(replacements):
+          raise ValueError(
+              f'attempt to assign sequence of size {len(replacements)} to '
+              f'extended slice of size {len(targets)}')
       updates = []
-      for i, r in enumerate(replacements):
-        update = self._set_item_without_permission_check(start + i * step, r)
-        if update is not None:
-          updates.append(update)
-      if flags.is_change_notification_enabled() and updates:
-        self._notify_field_updates(updates)
+      try:
+        for i, r in zip(targets, replacements):
+          update = self._set_item_without_permission_check(i, r)
+          if update is not None:
+            updates.append(update)
+      finally:
+        if flags.is_change_notification_enabled() and updates:
+          self._notify_field_updates(updates)
+        else:
+          self._sync_children()
     elif isinstance(index, numbers.Integral):
       if index < -len(self) or index >= len(self):
         raise IndexError(
@@ -600,27 +602,34 @@ class List(list, base.Symbolic, pg_typing.CustomTyping):
           self._error_message('Cannot delete List item while accessor_writable '
                               'is set to False. '
                               'Use \'rebind\' method instead.'))
-    if not isinstance(index, numbers.Integral):
+    if isinstance(index, slice):
+      # Delete from the largest index, so smaller indices remain valid.
+      indices = sorted(range(*self._parse_slice(index)), reverse=True)
+    elif isinstance(index, numbers.Integral):
+      if index < -len(self) or index >= len(self):
+        raise IndexError(
+            f'list index out of range. '
+            f'Length={len(self)}, index={index}')
+      indices = [index + len(self) if index < 0 else index]
+    else:
       raise TypeError(
           f'list index must be an integer. Encountered {index!r}.')
 
-    if index < -len(self) or index >= len(self):
-      raise IndexError(
-          f'list index out of range. '
-          f'Length={len(self)}, index={index}')
-
-    old_value = self.sym_getattr(index)
-    super().__delitem__(index)
-    # Detach the removed value from object tree.
-    self._detach(old_value)
-
-    if flags.is_change_notification_enabled():
-      self._notify_field_updates([
+    updates = []
+    for i in indices:
+      old_value = self.sym_getattr(i)
+      super().__delitem__(i)
+      # Detach the removed value from object tree.
+      self._detach(old_value)
+      updates.append(
           base.FieldUpdate(
-              self.sym_path + index, self,
+              self.sym_path + i, self,
               self._value_spec.element if self._value_spec else None,
-              old_value, pg_typing.MISSING_VALUE)
-      ])
+              old_value, pg_typing.MISSING_VALUE))
+    updates.reverse()
+
+    if flags.is_change_notification_enabled() and updates:
+      self._notify_field_updates(updates)
     else:
       self._sync_children()
 
